@@ -117,6 +117,7 @@ type Backend struct {
 	BadKeyspaces   map[string]message.Message
 	SlowKeyspaces  map[string]time.Duration // USE of these is answered only after the delay (a backend slower than the proxy's connect timeout)
 	OddKeyspaces   map[string]bool          // USE of these is answered with a RESULT that is not set_keyspace
+	OptionsReplies []Outcome                // raw replies handed out, one each, to the next OPTIONS (heartbeats) of started connections
 	StartupDelay   time.Duration            // every STARTUP is answered after this delay (widens the window in which a session is being created)
 	PrepareErr     map[string][]Outcome // per prepared-id (hex) outcomes of PREPARE attempts
 	prepAttempts   map[string]int
@@ -279,6 +280,20 @@ func (b *Backend) SetHostDefault(n int, o *Outcome) {
 }
 
 // ReleaseOptions sends the withheld OPTIONS answers in the order the requests arrived.
+// QueueOptionsReplies: the next heartbeats (OPTIONS on started connections) are answered with these raw replies.
+func (b *Backend) QueueOptionsReplies(outs ...Outcome) {
+	b.mu.Lock()
+	b.OptionsReplies = append(b.OptionsReplies, outs...)
+	b.mu.Unlock()
+}
+
+// OptionsRepliesLeft reports how many queued heartbeat replies have not been used yet.
+func (b *Backend) OptionsRepliesLeft() int {
+	b.mu.Lock()
+	defer b.mu.Unlock()
+	return len(b.OptionsReplies)
+}
+
 // SetStartupDelay makes every later STARTUP wait before it is answered.
 func (b *Backend) SetStartupDelay(d time.Duration) {
 	b.mu.Lock()
@@ -684,6 +699,12 @@ func (c *Conn) handle(hdr, body, raw []byte) bool {
 		c.logRec(rec)
 		be.mu.Unlock()
 		be.mu.Lock()
+		if c.started && len(be.OptionsReplies) > 0 {
+			out := be.OptionsReplies[0]
+			be.OptionsReplies = be.OptionsReplies[1:]
+			be.mu.Unlock()
+			return c.apply(stream, out, "")
+		}
 		if be.HoldOptions && c.started {
 			be.heldOptions = append(be.heldOptions, func() {
 				c.sendMsg(stream, &message.Supported{Options: map[string][]string{"CQL_VERSION": {"3.4.5"}, "COMPRESSION": {"lz4", "snappy"}}})
